@@ -34,7 +34,7 @@ def pkiDec (kind : PkiKind) (pki : Bytes) : R (Bytes × Nat) :=
 def payloadCheck : PkiKind → Bytes → E
   | .privkey, k => if k.length ≠ 32 ∧ k.length ≠ 24 ∧ k.length ≠ 48 ∧ k.length ≠ 64 then .badPrivkey else .ok
   | .share, s =>
-    if (s.length ≠ 17 ∧ s.length ≠ 25 ∧ s.length ≠ 33) ∨ (s.headD 0).toNat = 0 ∨ (s.headD 0).toNat > 16 then .badSeckey
+    if (s.length ≠ 17 ∧ s.length ≠ 25 ∧ s.length ≠ 33) ∨ (s.headD 0).toNat = 0 ∨ (s.headD 0).toNat > 16 then .badSharekey   -- after fix 43d6f21 (was ERR_BAD_SECKEY)
     else .ok
 
 /-- the part shared by Wrap and the harness op `rawwrap`: PBKDF2, belt-KWP, EncryptedPrivateKeyInfo -/
